@@ -77,6 +77,17 @@ CHECKS['C10'] = dict(
          'beyond the sampled paths.',
     technique='z3 regex-language inclusion of datatype patterns vs XSD lexical spaces + AST->z3 translation of Integer bounds + CrossHair bug-hunting',
     design='DESIGN.md §4 C10')
+CHECKS['C07'] = dict(
+    text='Value comparisons (six operators) on unbounded integers, strings (len <= 2), booleans, anyURI; order laws (reflexive, '
+         'antisymmetric, transitive, total, lt = not ge) on three unbounded integers; XPTY0004 on incomparable type pairs; general '
+         'comparisons on sequences of length 0..2 per side against the existential definition incl. the untypedAtomic rule; EBV table '
+         'and and/or/not/if against Boolean algebra: all executed symbolically through token.evaluate and exhausted by CrossHair/z3 '
+         'within the per-obligation bounds. Durations, doubles and the XPath 1.0 number conversion are bug-hunting only.',
+    note='Trusted: CrossHair models of int/str/bool, desugared match statements. A symbolic str must not be the LEFT operand of a '
+         'comparison with a foreign class (proxy returns TypeError instead of NotImplemented): harnesses keep symbolic strings on the '
+         'right. Out: inexact doubles, DoubleProxy10 tolerance, collations, date/time and binary operands.',
+    technique='SMT-based symbolic execution (CrossHair/z3) of comparison/logic templates vs definitional oracle; types enumerated, values symbolic',
+    design='DESIGN.md §4 C07')
 NOT_APPLICABLE = {
     'C04': 'Quantifies over program syntax and hash seeds: no value domain to make symbolic; symbolic source text does not get through '
            'the tokenizer regex under CrossHair (600 CPU-s, len<=2, no verdict); a table-level z3 check would verify a model of the '
